@@ -69,9 +69,10 @@ type exchJ struct {
 }
 
 type ecaseJ struct {
-	Class string  // input class (key of a finding)
-	Exchs []exchJ //
-	Time  bool    // timing scenario: gaps are slept and delivery times compared
+	Class    string  // input class (key of a finding)
+	Exchs    []exchJ //
+	Pipeline bool    // the client writes all requests before it reads the first response
+	Handler  bool    // through the http.Handler variant of the proxy (oracle only, the model is of the connection handler)
 }
 
 // ---------------------------------------------------------------- origin
@@ -469,9 +470,18 @@ func runConn(proxyAddr, origin string, paths []string, c ecaseJ, wait time.Durat
 		}
 		return true
 	}
+	if c.Pipeline {
+		var all []byte
+		for i, x := range c.Exchs {
+			all = append(all, renderReq(x.Req, origin, paths[i])...)
+		}
+		conn.Write(all)
+	}
 	for i, x := range c.Exchs {
 		v11 := x.Req.Proto == "HTTP/1.1"
-		if _, err := conn.Write(renderReq(x.Req, origin, paths[i])); err != nil {
+		if c.Pipeline {
+			// already written
+		} else if _, err := conn.Write(renderReq(x.Req, origin, paths[i])); err != nil {
 			eof = true
 			break
 		}
@@ -685,6 +695,7 @@ func genCase(r *rng.R) ecaseJ {
 		}
 		c.Exchs = append(c.Exchs, exchJ{x, genResp(r, x.Method)})
 	}
+	c.Pipeline = r.Chance(1, 4)
 	return c
 }
 
@@ -732,9 +743,12 @@ var hopNames = map[string]bool{"connection": true, "keep-alive": true, "proxy-au
 	"content-length": true, "content-encoding": true}
 
 // expected observation at the client, derived from the origin script only
-func expected(x exchJ, sawGzip bool) string {
+func expected(x exchJ, sawGzip bool, relax304 bool) string {
 	o := x.Resp
 	hop := map[string]bool{}
+	if relax304 && o.Code == 304 {
+		hop["content-type"] = true // Go's http.Server drops it from 304 replies (http.Handler variant only)
+	}
 	for k := range hopNames {
 		hop[k] = true
 	}
@@ -802,7 +816,7 @@ func reqClose(x xreq) bool {
 	return false
 }
 
-func renderE2E(c ecaseJ, res connResult, snaps []snapshot, sawAE []string) string {
+func renderE2E(c ecaseJ, res connResult, snaps []snapshot, sawAE []string, relax304 bool) string {
 	var parts []string
 	for i := 0; i < res.Done && i < len(c.Exchs); i++ {
 		x := c.Exchs[i]
@@ -844,7 +858,7 @@ func renderE2E(c ecaseJ, res connResult, snaps []snapshot, sawAE []string) strin
 		}
 		q := fmt.Sprintf("(mkReq %s %d %d %s)", coqfmt.Str(x.Req.Method), maj, min, coqfmt.Bool(reqClose(x.Req)))
 		parts = append(parts, fmt.Sprintf("{| e_req := %s; e_snap := %s; e_order := %s; e_exp := %s |}", q, coqResp(rj),
-			coqfmt.StrList(order), expected(x, strings.Contains(sawAE[i], "gzip"))))
+			coqfmt.StrList(order), expected(x, strings.Contains(sawAE[i], "gzip"), relax304)))
 	}
 	v11 := c.Exchs[0].Req.Proto == "HTTP/1.1"
 	return fmt.Sprintf("{| e_v11 := %s; e_want := %d; e_exchs := %s; e_stream := %s; e_closed := %s |}", coqfmt.Bool(v11), len(c.Exchs),
@@ -858,11 +872,20 @@ type e2eOut struct {
 	Err  string `json:"err,omitempty"`
 }
 
+var relaxedRendered []string // handler cases rendered a second time without Content-Type on 304 replies
+
 func runCases(cases []ecaseJ, wait time.Duration) (rendered []string, outs []any, stats map[string]int) {
+	relaxedRendered = make([]string, len(cases))
 	org := newOrigin()
 	defer org.l.Close()
-	rig := newProxyRig(false)
-	defer rig.stop()
+	rigs := map[bool]*proxyRig{false: newProxyRig(false)}
+	defer rigs[false].stop()
+	for _, c := range cases {
+		if c.Handler && rigs[true] == nil {
+			rigs[true] = newProxyRig(true)
+			defer rigs[true].stop()
+		}
+	}
 	origin := org.l.Addr().String()
 	stats = map[string]int{}
 	rendered = make([]string, len(cases))
@@ -885,6 +908,7 @@ func runCases(cases []ecaseJ, wait time.Duration) (rendered []string, outs []any
 				org.scripts[paths[i]] = &r
 			}
 			org.mu.Unlock()
+			rig := rigs[c.Handler]
 			res := runConn(rig.addr, origin, paths, c, wait)
 			snaps := make([]snapshot, len(paths))
 			sawAE := make([]string, len(paths))
@@ -896,7 +920,10 @@ func runCases(cases []ecaseJ, wait time.Duration) (rendered []string, outs []any
 			}
 			org.mu.Unlock()
 			rig.mu.Unlock()
-			rendered[ci] = renderE2E(c, res, snaps, sawAE)
+			rendered[ci] = renderE2E(c, res, snaps, sawAE, false)
+			if c.Handler {
+				relaxedRendered[ci] = renderE2E(c, res, snaps, sawAE, true)
+			}
 			outs[ci] = e2eOut{c, res.Done, res.Err}
 			smu.Lock()
 			note(rendered[ci], res.Done >= 2)
@@ -905,6 +932,9 @@ func runCases(cases []ecaseJ, wait time.Duration) (rendered []string, outs []any
 			stats["exchanges_requested"] += len(c.Exchs)
 			if res.Closed {
 				stats["closed_by_proxy"]++
+			}
+			if c.Pipeline {
+				stats["pipelined_connections"]++
 			}
 			if res.TimedOut {
 				stats["timed_out_waiting_for_response"]++
@@ -938,6 +968,31 @@ func runE2E(r *rng.R, thorough bool, ss *shardSet, m *meta, out string) {
 	rendered, outs, stats := runCases(cases, 2500*time.Millisecond)
 	m.Counts["ecases"] = len(rendered)
 	m.E2E["stats"] = stats
+	// the same kind of connections through the http.Handler variant: the oracle only
+	nh := 60
+	if thorough {
+		nh = 600
+	}
+	var hcases []ecaseJ
+	for _, c := range cases[:len(corpus())] {
+		c.Handler = true
+		hcases = append(hcases, c)
+	}
+	for i := 0; i < nh; i++ {
+		c := genCase(r)
+		c.Handler = true
+		hcases = append(hcases, c)
+	}
+	hr, ho, hstats := runCases(hcases, 2500*time.Millisecond)
+	m.Counts["xcases"] = len(hr)
+	m.E2E["handler_stats"] = hstats
+	oldx := ss.shardSize
+	ss.shardSize = 40
+	ss.write("xcases", "ecase", "(fun _ : ecase => true)", "ecase_prop_ok", hr)
+	ss.write("ycases", "ecase", "(fun _ : ecase => true)", "ecase_prop_ok", append([]string(nil), relaxedRendered...))
+	ss.shardSize = oldx
+	writeJSONL(out, "xcases.jsonl", ho)
+	writeJSONL(out, "ycases.jsonl", ho)
 	old := ss.shardSize
 	ss.shardSize = 40
 	ss.write("ecases", "ecase", "ecase_model_ok", "ecase_prop_ok", rendered)
@@ -958,6 +1013,21 @@ func replayE2E(kind string, raw json.RawMessage, ss *shardSet, m *meta) {
 		m.E2E["timing"] = map[string]any{"min_slack_us": slack}
 		ss.write("tcases", "tcase", "(fun _ : tcase => true)", "tcase_prop_ok", rendered)
 		writeJSONL(ss.dir, "tcases.jsonl", outs)
+		return
+	}
+	if kind == "xcases" {
+		var c ecaseJ
+		if err := json.Unmarshal(raw, &c); err != nil {
+			panic(err)
+		}
+		c.Handler = true
+		rendered, outs, stats := runCases([]ecaseJ{c}, 2500*time.Millisecond)
+		m.Counts["xcases"] = 1
+		m.E2E["handler_stats"] = stats
+		ss.write("xcases", "ecase", "(fun _ : ecase => true)", "ecase_prop_ok", rendered)
+		ss.write("ycases", "ecase", "(fun _ : ecase => true)", "ecase_prop_ok", append([]string(nil), relaxedRendered...))
+		writeJSONL(ss.dir, "xcases.jsonl", outs)
+		writeJSONL(ss.dir, "ycases.jsonl", outs)
 		return
 	}
 	if kind != "ecases" {
